@@ -57,6 +57,7 @@ def c04_groups(tier):
         dict(id='M9.prop', desc='PROP column of each wire type written by a spec encoder (docs/binary.md) decodes to bit-identical values under the given name, for unknown classes',
              bounds='2 instances, every value symbolic (all bit patterns); kinds: %s' % ', '.join(kinds),
              cases=[dict(what='prop', kind=k, n=2, opts=KIND_OPTS.get(k, {})) for k in kinds], budget=600),
+        long_group(),
         dict(id='M9.widen', desc='Int32 column for a property the database declares Int64, Float32 column for one declared Float64: loaded widened exactly (NaN stays NaN)',
              bounds='2 instances, all bit patterns; custom database with class A, property P',
              cases=[dict(what='prop', kind=k, n=2, opts={'declared': d}, classes={'A': dict(properties={'P': dict(variant_type=d)})}) for k, d in (('Int32', 'Int64'), ('Float32', 'Float64'), ('Int32', 'Int32'), ('Float64', 'Float64'))], budget=300),
@@ -72,3 +73,21 @@ def c03_groups(tier):
         dict(id='M4.chunk', desc='ChunkBuilder::dump (uncompressed) writes name, compressed length 0, length, reserved 0, data as docs/binary.md specifies',
              bounds='0..6 symbolic body bytes, sink with room for everything', cases=[dict(what='dump', len=n, room=64) for n in range(0, 7)], budget=120),
     ]
+
+
+def boundary_sizes(files, crates=None):
+    """sizes at which length-dependent obligations are additionally run: 65 (beyond the default loop bound) and c, c+1 for
+    every constant c in (64, 8192] that the reader code in `files` uses (vlib/mirsym/mining.py)"""
+    from ..mirsym import binrun, mining
+    from ..mirsym.program import Program
+    from ..mirsym import mirdump
+    prog = Program(crates, mirdump.MIR_DIR) if crates else binrun._load()
+    consts = mining.mined_sizes(prog, files)
+    return sorted({65} | {c for c in consts} | {c + 1 for c in consts}), consts
+
+
+def long_group():
+    sizes, consts = boundary_sizes(['deserializer/state.rs', 'rbx_binary/src/core.rs', 'rbx_binary/src/chunk.rs', 'deserializer/mod.rs'])
+    return dict(id='M9.long', desc='String / NumberSequence / ColorSequence columns with lengths at the boundary constants of the reader code (caps, limits) decode completely and bit-identically',
+                bounds='1 instance; lengths %s (65 and c, c+1 for the constants %s mined from the MIR of the reader)' % (sizes, consts),
+                cases=[dict(what='prop', kind=k, n=1, opts={'len': [n]}, range_limit=n + 8) for k in ('String', 'NumberSequence', 'ColorSequence') for n in sizes], budget=900)
